@@ -711,13 +711,40 @@ RESTORE_TABLE = [(0, "read groups seen on the chromosome", "_groups"),
 
 
 def _file_locals(f):
-    """file-name locals of a function: name -> literal tail of the '{}_{}<tail>'.format(...) expression defining it"""
+    """file-name locals of a function: name -> literal tail of the '{}_{}<tail>'.format(...) expression defining it; a field of a record
+    built from such expressions (files = Record(groups='{}_{}_groups'.format(...), ...)) counts as `files.groups`"""
     out = {}
+
+    def tail_of(v):
+        if isinstance(v, ast.Call) and isinstance(v.func, ast.Attribute) and v.func.attr == "format" and isinstance(v.func.value, ast.Constant) \
+                and isinstance(v.func.value.value, str) and v.func.value.value.startswith("{}_{}"):
+            return v.func.value.value[len("{}_{}"):]
+        return None
     for st in f.body:
-        if isinstance(st, ast.Assign) and len(st.targets) == 1 and isinstance(st.targets[0], ast.Name) and isinstance(st.value, ast.Call) \
-                and isinstance(st.value.func, ast.Attribute) and st.value.func.attr == "format" and isinstance(st.value.func.value, ast.Constant) \
-                and isinstance(st.value.func.value.value, str) and st.value.func.value.value.startswith("{}_{}"):
-            out[st.targets[0].id] = st.value.func.value.value[len("{}_{}"):]
+        if not (isinstance(st, ast.Assign) and len(st.targets) == 1 and isinstance(st.targets[0], ast.Name)):
+            continue
+        t = tail_of(st.value)
+        if t is not None:
+            out[st.targets[0].id] = t
+        elif isinstance(st.value, ast.Call) and isinstance(st.value.func, ast.Name) and st.value.func.id[:1].isupper():
+            rec = None
+            for m_ in (getattr(f, "_module", None),):
+                rec = m_.assigns.get(st.value.func.id) if m_ is not None else None
+            fields = []
+            if isinstance(rec, ast.Call) and (call_name(rec) or "").endswith("namedtuple") and len(rec.args) == 2:
+                fa = rec.args[1]
+                if isinstance(fa, (ast.Tuple, ast.List)):
+                    fields = [e.value for e in fa.elts if isinstance(e, ast.Constant)]
+                elif isinstance(fa, ast.Constant) and isinstance(fa.value, str):
+                    fields = fa.value.replace(",", " ").split()
+            for i_, a_ in enumerate(st.value.args):
+                t = tail_of(a_)
+                if t is not None and i_ < len(fields):
+                    out["%s.%s" % (st.targets[0].id, fields[i_])] = t
+            for k_ in st.value.keywords:
+                t = tail_of(k_.value)
+                if t is not None and k_.arg:
+                    out["%s.%s" % (st.targets[0].id, k_.arg)] = t
     return out
 
 
